@@ -39,7 +39,9 @@ invariant("ResolvedPos",
           f" and self.pos - p3c({PATH}, self.depth) < nsize({K('self.depth')}[p3b({PATH}, self.depth)]))",
           f"self.parent_offset == self.pos - (0 if self.depth == 0 else p3c({PATH}, self.depth - 1) + 1)",
           # no level below the top is a text node (resolve stops before descending into text)
-          f"all_(1, self.depth + 1, lambda d: not p3a({PATH}, d).type.is_text)")
+          f"all_(1, self.depth + 1, lambda d: not p3a({PATH}, d).type.is_text)",
+          # ... nor a leaf (a position strictly inside a node means the node has an inside)
+          f"all_(1, self.depth + 1, lambda d: not leaf_t(p3a({PATH}, d).type))")
 
 DEPTH_OK = ["0 <= depth", "depth <= self.depth"]
 ODEPTH_OK = ["depth is None or (0 <= depth and depth <= self.depth)"]
@@ -97,6 +99,8 @@ contract(FP, "ResolvedPos.resolve", {"doc": "Node", "pos": "int"}, returns="Reso
              "len3(path) > 0 ==> p3c(path, 0) == pre(p3a(path, 0).content.content, p3b(path, 0))",
              "all_(1, len3(path), lambda d: p3c(path, d) == p3c(path, d - 1) + 1 + pre(p3a(path, d).content.content, p3b(path, d)))",
              "all_(1, len3(path), lambda d: not p3a(path, d).type.is_text)",
+             "all_(1, len3(path), lambda d: not leaf_t(p3a(path, d).type))",
+             "len3(path) > 0 ==> not leaf_t(node.type)",
          ], decreases="parent_offset")},
          locals={"path": "list3[Node,int,int]"},
          uses=["pre-nonneg"],
